@@ -302,6 +302,23 @@ def evaluate(spec, table):
         for col in table["columns"]:
             field_errors({"dtype": spec["dtype"], "nullable": False},
                          col["phys"], col["values"], "column", col["name"], errs, v)
+    # ---- frame-level checks apply to every cell of every column
+    for ci, chk in enumerate(spec.get("checks") or []):
+        bad = []
+        for col in table["columns"]:
+            for i, x in enumerate(col["values"]):
+                if is_null(x):
+                    continue
+                try:
+                    ok = check_cell(chk, x)
+                except TypeError:
+                    v.undecided = True
+                    ok = True
+                if not ok:
+                    bad.append((i, (col["name"], x)))
+        if bad:
+            errs.append(Err("DATAFRAME_CHECK", None, ci, bad, where="frame"))
+            v.exact = False      # report shape: one dict of failing cells per row
     _index_errors(spec, table, errs, v)
     return _finish(v)
 
